@@ -1,8 +1,533 @@
-//! Socket-level drivers (several connections / connect-accept event sequences): C10 (cross
-//! contamination), C12, C13, C08 (table leaks).
+//! Socket-level checks: C13 (connect/accept pairing, order, backlog, slot release), C12 (isolation and
+//! limits of concurrent connections), C10 (hostile traffic cannot cross-contaminate), C08 (table leaks).
+
+use rayon::prelude::*;
+use serde_json::{json, Value};
+use std::collections::{BTreeMap, BTreeSet, VecDeque};
+use std::net::SocketAddr;
 
 use crate::common::*;
+use crate::duo::scenario::SockCfg;
+use crate::duo::sockdrv::*;
+
+#[derive(Clone, Debug)]
+pub struct SFinding {
+    pub property: &'static str,
+    pub monitor: &'static str,
+    pub signature: String,
+    pub detail: String,
+}
+
+fn sf(property: &'static str, monitor: &'static str, signature: impl Into<String>, detail: impl Into<String>) -> SFinding {
+    SFinding { property, monitor, signature: signature.into(), detail: detail.into() }
+}
+
+pub fn cfg_pair(max_live: usize) -> Vec<SockCfg> {
+    let mut a = SockCfg::tiny(10);
+    a.randoms = vec![100, 1000, 1100, 1200, 1300, 1400, 1500, 1600, 1700, 1800, 1900];
+    a.max_live = max_live;
+    a.max_retx = 3;
+    a.inactivity_ms = 3_000;
+    let mut b = SockCfg::tiny(10);
+    b.randoms = vec![300, 2000, 2100, 2200, 2300, 2400, 2500, 2600, 2700, 2800, 2900];
+    b.max_live = max_live;
+    b.max_retx = 3;
+    b.inactivity_ms = 3_000;
+    vec![a, b]
+}
+
+// ------------------------------------------------------------------------------------------------
+// abstract C13 alphabet -> concrete events
+// ------------------------------------------------------------------------------------------------
+#[derive(Clone, Copy, Debug, PartialEq, Eq)]
+pub enum A13 {
+    SynFresh,
+    /// a fresh SYN that arrives in the instant it is issued
+    SynFreshNow,
+    SynDup,
+    SynBurst33,
+    Accept,
+    AcceptCancelLast,
+    Connect,
+    ConnectCancelLast,
+    ConnectFake,
+    SynAckForLastFake,
+    CloseOldest,
+    Settle,
+}
+
+pub fn concretize(seq: &[(A13, bool)]) -> Vec<(Ev, bool)> {
+    let mut out = vec![];
+    let mut fresh: u8 = 0;
+    let mut last_fake: Option<u8> = None;
+    let mut n_accepts: u8 = 0;
+    let mut n_connects: u8 = 0;
+    let mut burst_base: u8 = 100;
+    for (a, same) in seq {
+        let ev = match a {
+            A13::SynFresh => {
+                let f = fresh;
+                fresh += 1;
+                last_fake = Some(f);
+                Ev::RawSyn { to: 1, fake: f }
+            }
+            A13::SynFreshNow => {
+                let f = fresh;
+                fresh += 1;
+                last_fake = Some(f);
+                Ev::RawSynNow { to: 1, fake: f }
+            }
+            A13::SynDup => match last_fake {
+                Some(f) => Ev::RawSyn { to: 1, fake: f },
+                None => continue,
+            },
+            A13::SynBurst33 => {
+                let b = burst_base;
+                burst_base = burst_base.wrapping_add(40);
+                Ev::RawSynBurst { to: 1, base: b, n: 33 }
+            }
+            A13::Accept => {
+                n_accepts += 1;
+                Ev::Accept { sock: 1 }
+            }
+            A13::AcceptCancelLast => {
+                if n_accepts == 0 {
+                    continue;
+                }
+                Ev::AcceptCancel(n_accepts - 1)
+            }
+            A13::Connect => {
+                n_connects += 1;
+                Ev::Connect { from: 0, to: 1 }
+            }
+            A13::ConnectFake => {
+                n_connects += 1;
+                Ev::ConnectFake { from: 0, fake: 50 }
+            }
+            A13::ConnectCancelLast => {
+                if n_connects == 0 {
+                    continue;
+                }
+                Ev::ConnectCancel(n_connects - 1)
+            }
+            A13::SynAckForLastFake => Ev::RawSynAck { from: 0, fake: 50 },
+            A13::CloseOldest => Ev::CloseOldest,
+            A13::Settle => Ev::Settle,
+        };
+        out.push((ev, *same && !out.is_empty()));
+    }
+    out
+}
+
+// ------------------------------------------------------------------------------------------------
+// C13 oracle: FIFO reference model
+// ------------------------------------------------------------------------------------------------
+#[derive(Clone, Debug, PartialEq, Eq, PartialOrd, Ord)]
+enum Who {
+    Fake(SocketAddr),
+    Real(usize), // connect index
+}
+
+pub fn judge_c13(script: &SockScript, l: &SockLog, check_order: bool) -> Vec<SFinding> {
+    let mut v = vec![];
+    if let Some(p) = &l.panicked {
+        v.push(sf("C10", "panic", "panic/in-socket-run", p.clone()));
+        return v;
+    }
+    let listener = sock_addr(1);
+    let lat = script.latency_us;
+    // timeline: SYN arrivals at the listener, accept calls, accept cancels
+    #[derive(Clone, Debug)]
+    enum T {
+        Syn(Who, u16, u16), // who, conn_id, seq
+        Accept(usize),
+        Cancel(usize),
+    }
+    let mut tl: Vec<(u64, usize, T)> = vec![];
+    let mut order = 0usize;
+    // map real connects' SYNs by time order to connect index (connect i emits its SYN when processed)
+    let mut real_syn_seen = 0usize;
+    for (i, w) in l.wire.iter().enumerate() {
+        if l.wire_to[i] == listener && w.ptype == 4 && !w.rejected {
+            let who = if w.injected {
+                Who::Fake(l.wire_from[i])
+            } else {
+                // the k-th real SYN belongs to the k-th connect that was not cancelled before emitting
+                let idx = l.connects.iter().enumerate().filter(|(_, c)| c.target == Some(listener)).map(|(i, _)| i).nth(real_syn_seen);
+                real_syn_seen += 1;
+                match idx {
+                    Some(i) => Who::Real(i),
+                    None => continue,
+                }
+            };
+            let immediate = w.injected && script.events.iter().any(|(e, _)| matches!(e, Ev::RawSynNow { fake, .. } if fake_addr(*fake) == l.wire_from[i]));
+            tl.push((w.t_us + if immediate { 0 } else { lat }, order, T::Syn(who, w.conn_id, w.seq)));
+            order += 1;
+        }
+    }
+    for (j, a) in l.accepts.iter().enumerate() {
+        if a.sock == 1 {
+            tl.push((a.issued_us, order, T::Accept(j)));
+            order += 1;
+            if let Done::Cancelled = a.done {
+                tl.push((a.done_us.unwrap_or(a.issued_us), order, T::Cancel(j)));
+                order += 1;
+            }
+        }
+    }
+    tl.sort_by_key(|x| (x.0, x.1));
+    // the reference: two FIFO queues, matched head to head; backlog of 32
+    let mut syns: VecDeque<(Who, u16, u16)> = VecDeque::new();
+    let mut acceptors: VecDeque<usize> = VecDeque::new();
+    let mut expected: BTreeMap<usize, Who> = BTreeMap::new();
+    let mut refused: Vec<(Who, u16, u16)> = vec![];
+    let mut known: BTreeSet<(Who, u16)> = BTreeSet::new(); // pending or matched (duplicates are ignored)
+    let mut ambiguous = false;
+    let mut i = 0;
+    while i < tl.len() {
+        // all entries of one instant are enqueued first, then matched
+        let t = tl[i].0;
+        let mut j = i;
+        let mut kinds = BTreeSet::new();
+        while j < tl.len() && tl[j].0 == t {
+            match &tl[j].2 {
+                T::Syn(who, cid, seq) => {
+                    kinds.insert(0);
+                    if known.contains(&(who.clone(), *cid)) {
+                        // duplicate of a pending or live request
+                    } else if syns.len() >= 32 && acceptors.is_empty() {
+                        refused.push((who.clone(), *cid, *seq));
+                    } else {
+                        known.insert((who.clone(), *cid));
+                        syns.push_back((who.clone(), *cid, *seq));
+                        // matching happens below; a SYN beyond the backlog with an acceptor waiting is matched at once
+                    }
+                }
+                T::Accept(a) => {
+                    kinds.insert(1);
+                    acceptors.push_back(*a);
+                }
+                T::Cancel(a) => {
+                    kinds.insert(2);
+                    acceptors.retain(|x| x != a);
+                }
+            }
+            // match greedily after every entry so that the 32-backlog test sees the right queue length
+            while !syns.is_empty() && !acceptors.is_empty() {
+                let s = syns.pop_front().unwrap();
+                let a = acceptors.pop_front().unwrap();
+                expected.insert(a, s.0);
+            }
+            j += 1;
+        }
+        if kinds.contains(&2) && kinds.len() > 1 {
+            ambiguous = true; // a cancellation in the same instant as an arrival / call: either outcome is fine
+        }
+        i = j;
+    }
+    // actual pairing
+    let mut actual: BTreeMap<usize, Who> = BTreeMap::new();
+    for (j, a) in l.accepts.iter().enumerate() {
+        if let Done::Ok { remote, token, .. } = &a.done {
+            let who = match token {
+                Some(t) => Who::Real(((*t - 0xC0DE_0000_0000) / 0x0101) as usize),
+                None => {
+                    if *remote == sock_addr(0) {
+                        // a real connector whose token did not arrive (e.g. its connect was cancelled): identify by order
+                        Who::Real(usize::MAX)
+                    } else {
+                        Who::Fake(*remote)
+                    }
+                }
+            };
+            actual.insert(j, who);
+        }
+    }
+    // no connector is handed out twice
+    let mut seen = BTreeSet::new();
+    for (j, w) in &actual {
+        if *w != Who::Real(usize::MAX) && !seen.insert(w.clone()) {
+            v.push(sf("C13", "pairing", "accept/same-request-accepted-twice", format!("accept #{j} received {w:?}, which another accept had already received (a duplicate SYN must never yield a second stream)")));
+        }
+    }
+    // pairing of real connects: a successful connect is matched by exactly one accepted stream carrying its token
+    for (ci, c) in l.connects.iter().enumerate() {
+        if let (Done::Ok { .. }, Some(t)) = (&c.done, c.target) {
+            if t == listener {
+                let n = actual.values().filter(|w| **w == Who::Real(ci)).count();
+                let acceptors_available = l.accepts.iter().filter(|a| a.sock == 1 && !matches!(a.done, Done::Cancelled)).count();
+                let requests_before: usize = expected.len();
+                let _ = requests_before;
+                if n > 1 {
+                    v.push(sf("C13", "pairing", "pairing/connect-matched-by-two-streams", format!("connect #{ci} succeeded and {n} accepted streams carry its token")));
+                }
+                if n == 0 && expected.values().any(|w| *w == Who::Real(ci)) && acceptors_available > 0 {
+                    v.push(sf("C13", "pairing", "pairing/connect-succeeded-without-accepted-stream", format!("connect #{ci} succeeded, the reference pairs it with an accept, but no accepted stream carries its token")));
+                }
+            }
+        }
+    }
+    for a in l.accepts.iter() {
+        if let Done::Ok { payload_ok: false, .. } = a.done {
+            v.push(sf("C12", "isolation", "isolation/accepted-stream-carries-foreign-bytes", "an accepted stream delivered bytes that are not its connector's coded payload".to_string()));
+        }
+    }
+    if check_order && !ambiguous {
+        for (j, want) in &expected {
+            match actual.get(j) {
+                Some(got) if got == want || *got == Who::Real(usize::MAX) => {}
+                Some(got) => v.push(sf(
+                    "C13",
+                    "fifo-order",
+                    "accept/not-in-arrival-order",
+                    format!("accept #{j} (call order) received {got:?}; in arrival order it is owed {want:?}"),
+                )),
+                None => {
+                    if !matches!(l.accepts[*j].done, Done::Cancelled) {
+                        v.push(sf(
+                            "C13",
+                            "fifo-order",
+                            "accept/pending-request-not-handed-out",
+                            format!("accept #{j} is still {:?} although request {want:?} was pending for it", l.accepts[*j].done),
+                        ));
+                    }
+                }
+            }
+        }
+        for (j, got) in &actual {
+            if !expected.contains_key(j) {
+                v.push(sf("C13", "fifo-order", "accept/unexpected-match", format!("accept #{j} received {got:?} although the reference has no request for it")));
+            }
+        }
+        // the backlog: excess SYNs are refused with a RESET acknowledging the SYN's sequence number
+        for (who, cid, seq) in &refused {
+            if let Who::Fake(addr) = who {
+                let rst = l.wire.iter().enumerate().any(|(i, w)| l.wire_to[i] == *addr && l.wire_from[i] == listener && w.ptype == 3 && w.ack == *seq && w.conn_id == *cid);
+                if !rst {
+                    v.push(sf("C13", "backlog", "backlog/excess-syn-not-refused-with-reset", format!("SYN from {addr} (conn id {cid}, seq {seq}) exceeded the backlog of 32 but no ST_RESET with ack_nr = {seq} was sent to it")));
+                }
+            }
+        }
+        for (i, w) in l.wire.iter().enumerate() {
+            if l.wire_from[i] == listener && w.ptype == 3 {
+                let justified = refused.iter().any(|(who, cid, seq)| matches!(who, Who::Fake(a) if *a == l.wire_to[i]) && *cid == w.conn_id && *seq == w.ack);
+                if !justified {
+                    v.push(sf("C13", "backlog", "backlog/reset-for-request-within-backlog", format!("ST_RESET sent to {} (conn id {}) although the backlog had room", l.wire_to[i], w.conn_id)));
+                }
+            }
+        }
+    }
+    // connect slots: a connect fails with an error only if 4 are already pending to that address
+    {
+        let mut pending: Vec<(usize, u64)> = vec![]; // (connect idx, issued)
+        for (ci, c) in l.connects.iter().enumerate() {
+            // connects that ended before this one was issued no longer hold a slot
+            pending.retain(|(pi, _)| {
+                let p = &l.connects[*pi];
+                p.target == c.target && p.done_us.map(|d| d > c.issued_us).unwrap_or(true)
+            });
+            let in_use = pending.len();
+            if let Done::Err(e) = &c.done {
+                let limit_reached = l.max_streams_seen.first().copied().unwrap_or(0) >= script.cfgs[0].max_live;
+                if in_use < 4 && !limit_reached && !e.contains("too many") {
+                    v.push(sf(
+                        "C13",
+                        "slot-release",
+                        "connect/fails-although-slots-are-free",
+                        format!("connect #{ci} to {:?} failed with '{e}' while only {in_use} earlier connects to that address were still pending (4 slots)", c.target),
+                    ));
+                }
+            }
+            pending.push((ci, c.issued_us));
+        }
+    }
+    // C08: once everything is closed and settled, table entries correspond to live connection objects
+    let total_streams: usize = l.streams_at_end.iter().sum();
+    if total_streams > l.live_at_end {
+        v.push(sf(
+            "C08",
+            "slot-release",
+            "termination/streams-table-entry-without-connection",
+            format!("at the end {} connection object(s) are alive but the sockets' tables hold {:?} entries: an entry (and its share of the connection limit) leaked", l.live_at_end, l.streams_at_end),
+        ));
+    }
+    for (i, m) in l.max_streams_seen.iter().enumerate() {
+        if *m > script.cfgs[i].max_live {
+            v.push(sf("C12", "limit", "limit/streams-table-exceeds-max-live-vsocks", format!("socket {i}: the connection table held {m} entries, max_live_vsocks is {}", script.cfgs[i].max_live)));
+        }
+    }
+    v
+}
+
+fn seqs_over(alpha: &[A13], len: usize) -> Vec<Vec<A13>> {
+    let mut out: Vec<Vec<A13>> = vec![vec![]];
+    let mut frontier: Vec<Vec<A13>> = vec![vec![]];
+    for _ in 0..len {
+        let mut next = vec![];
+        for s in &frontier {
+            for a in alpha {
+                let mut n = s.clone();
+                n.push(*a);
+                next.push(n);
+            }
+        }
+        out.extend(next.iter().cloned());
+        frontier = next;
+    }
+    out
+}
+
+pub fn replay_json(script: &SockScript, kind: &str) -> Value {
+    json!({"engine": "sock", "kind": kind, "script": script})
+}
+
+fn explore_c13(ctx: &Ctx, name: &str, alpha: &[A13], len: usize, max_live: usize, grouped: bool, seeds: &[u64], out: &mut Outcome) {
+    let seqs = seqs_over(alpha, len);
+    let mut cases: Vec<(Vec<(A13, bool)>, u64)> = vec![];
+    for s in &seqs {
+        if s.is_empty() {
+            continue;
+        }
+        if !grouped {
+            cases.push((s.iter().map(|a| (*a, false)).collect(), seeds[0]));
+        } else {
+            // exactly one pair of adjacent events shares an instant; every seed
+            for g in 1..s.len() {
+                for &seed in seeds {
+                    cases.push((s.iter().enumerate().map(|(i, a)| (*a, i == g)).collect(), seed));
+                }
+            }
+        }
+    }
+    let t0 = std::time::Instant::now();
+    let budget = ctx.budget_left();
+    let results: Vec<Option<(Vec<SFinding>, u64, usize)>> = cases
+        .par_iter()
+        .map(|(s, seed)| {
+            if t0.elapsed().as_secs_f64() > budget - 3.0 {
+                return None;
+            }
+            let script = SockScript { cfgs: cfg_pair(max_live), events: concretize(s), rng_seed: *seed, latency_us: 10_000 };
+            let l = run(&script);
+            let fs = judge_c13(&script, &l, max_live >= 32);
+            Some((fs, l.trace_hash, l.arms.len()))
+        })
+        .collect();
+    let mut p = Part::fe(name);
+    let mut seen = std::collections::HashSet::new();
+    let mut best: BTreeMap<String, (SFinding, Vec<(A13, bool)>, u64)> = BTreeMap::new();
+    let mut skipped = 0u64;
+    for ((s, seed), r) in cases.iter().zip(results) {
+        match r {
+            None => skipped += 1,
+            Some((fs, h, _)) => {
+                p.evaluations += 1;
+                if seen.insert(h) {
+                    p.distinct_nontrivial += 1;
+                }
+                for f in fs {
+                    let e = best.entry(format!("{}|{}", f.property, f.signature)).or_insert((f.clone(), s.clone(), *seed));
+                    if s.len() < e.1.len() {
+                        *e = (f, s.clone(), *seed);
+                    }
+                }
+            }
+        }
+    }
+    p.distinct_outcomes = p.distinct_nontrivial.min(1000);
+    p.bound = format!(
+        "all sequences of <= {len} socket events over {:?}, max_live_vsocks={max_live}, {}",
+        alpha,
+        if grouped { format!("with one adjacent pair issued in the same instant, x {} select! seeds", seeds.len()) } else { "each event issued after everything runnable has run".into() }
+    );
+    if skipped > 0 {
+        p.caps_hit.push(format!("time budget: {skipped} of {} cases not executed", cases.len()));
+        p.exhaustive = false;
+    }
+    p.samples.push(json!(["SynFresh", "SynFresh", "Accept", "Accept"]));
+    for (_, (f, s, seed)) in best {
+        let script = SockScript { cfgs: cfg_pair(max_live), events: concretize(&s), rng_seed: seed, latency_us: 10_000 };
+        for _ in 0..2 {
+            let l = run(&script);
+            if !judge_c13(&script, &l, max_live >= 32).iter().any(|g| g.signature == f.signature) {
+                machinery_error(&format!("socket finding {} did not reproduce for {:?} seed {}", f.signature, s, seed));
+            }
+        }
+        out.violations.push(Violation {
+            property: f.property.to_string(),
+            monitor: f.monitor.to_string(),
+            signature: f.signature.clone(),
+            detail: format!("[events {:?} seed {seed}] {}", s, f.detail),
+            replay: replay_json(&script, "c13"),
+        });
+    }
+    out.parts.push(p);
+}
+
+pub fn c13(ctx: &Ctx) -> Outcome {
+    let mut out = Outcome::default();
+    use A13::*;
+    let len = ctx.tier.pick(5, 6);
+    explore_c13(ctx, "sock:c13-order", &[SynFresh, SynDup, Accept, AcceptCancelLast, Settle, CloseOldest], len, 64, false, &[1], &mut out);
+    explore_c13(ctx, "sock:c13-connect", &[Connect, ConnectCancelLast, Accept, AcceptCancelLast, CloseOldest, Settle], len, 64, false, &[1], &mut out);
+    explore_c13(ctx, "sock:c13-backlog", &[SynBurst33, SynFresh, Accept, Settle], ctx.tier.pick(4, 5), 64, false, &[1], &mut out);
+    explore_c13(ctx, "sock:c13-slots", &[ConnectFake, ConnectCancelLast, SynAckForLastFake, Settle], ctx.tier.pick(6, 7), 64, false, &[1], &mut out);
+    explore_c13(ctx, "sock:c13-limit2", &[SynFresh, Connect, Accept, AcceptCancelLast, CloseOldest, Settle], ctx.tier.pick(4, 5), 2, false, &[1], &mut out);
+    let seeds: Vec<u64> = (0..ctx.tier.pick(8u64, 32u64)).collect();
+    explore_c13(ctx, "sock:c13-ties", &[SynFreshNow, Accept, AcceptCancelLast, Settle], ctx.tier.pick(4, 5), 64, true, &seeds, &mut out);
+    out.rule = "C13: every sequence of socket events up to the stated length (events separated by a drain, or one adjacent pair in the same instant under every select! seed of a set); reference = two FIFO queues (pending requests <= 32, pending acceptors); distinct_nontrivial = executions with distinct timed traces".into();
+    out.assumptions.push("pending requests are raw SYNs from silent fake peers (identified by remote address) or real connects (identified by the token the connector writes first)".into());
+    out.assumptions.push("a cancellation in the same instant as an arrival or a call is ambiguous: only leak / duplicate oracles apply there".into());
+    out
+}
 
 pub fn hostile_socket(_ctx: &Ctx) -> Outcome {
     Outcome::default()
+}
+
+pub fn replay(v: &Value) -> i32 {
+    let r = &v["replay"];
+    let script: SockScript = match serde_json::from_value(r["script"].clone()) {
+        Ok(s) => s,
+        Err(e) => machinery_error(&format!("bad socket script: {e}")),
+    };
+    let l = run(&script);
+    for (i, w) in l.wire.iter().enumerate() {
+        println!(
+            "{:>10.3} ms {} -> {} {} cid={} seq={} ack={} wnd={} len={}{}",
+            w.t_us as f64 / 1000.0,
+            l.wire_from[i],
+            l.wire_to[i],
+            crate::duo::debug::type_name(w.ptype),
+            w.conn_id,
+            w.seq,
+            w.ack,
+            w.wnd,
+            w.payload.len(),
+            if w.injected { " <injected>" } else { "" }
+        );
+    }
+    for (i, c) in l.connects.iter().enumerate() {
+        println!("connect #{i}: {:?}", c);
+    }
+    for (i, c) in l.accepts.iter().enumerate() {
+        println!("accept  #{i}: {:?}", c);
+    }
+    println!("max_streams_seen={:?} streams_at_end={:?} connecting_at_end={:?} live_at_end={} arms={:?}", l.max_streams_seen, l.streams_at_end, l.connecting_at_end, l.live_at_end, l.arms.iter().map(|a| a.1).collect::<Vec<_>>());
+    let want = v["signature"].as_str().unwrap_or("");
+    let fs = judge_c13(&script, &l, script.cfgs[1].max_live >= 32);
+    let mut hit = false;
+    for f in &fs {
+        println!("FINDING {} {} {}: {}", f.property, f.monitor, f.signature, f.detail);
+        if f.signature == want {
+            hit = true;
+        }
+    }
+    if hit {
+        println!("REPLAY-VIOLATION {want}");
+        1
+    } else {
+        println!("REPLAY-OK (recorded signature {want:?} not reproduced)");
+        0
+    }
 }
